@@ -30,6 +30,9 @@ class ContinueSig(Exception):
     pass
 
 
+_DTYPE_KIND = {"numpy.float64": "f", "numpy.int": "i", "numpy.int64": "i", "numpy.bool": "b"}
+
+
 class Ext:
     """opaque external name (type markers such as numpy.ndarray, un-modelled functions)"""
 
@@ -110,6 +113,27 @@ class ClassVal:
 
     def __repr__(self):
         return f"ClassVal({self.name})"
+
+
+_STORES = {}
+
+
+def _self_stores(cls):
+    """names assigned as `self.<name> = ...` (or augmented / annotated) in any method of the class or its bases"""
+    out = set()
+    for c in cls.mro():
+        if id(c) not in _STORES:
+            names = set()
+            for fn in ast.walk(c.node) if c.node is not None else ():
+                if isinstance(fn, (ast.FunctionDef,)) and fn.args.args:
+                    me = fn.args.args[0].arg
+                    for n in ast.walk(fn):
+                        if isinstance(n, ast.Attribute) and isinstance(n.ctx, ast.Store) and isinstance(n.value, ast.Name) \
+                                and n.value.id == me:
+                            names.add(n.attr)
+            _STORES[id(c)] = (c, names)
+        out |= _STORES[id(c)][1]
+    return out
 
 
 class SymObj:
@@ -991,6 +1015,11 @@ class Interp:
                 return obj.fields
             d, _ = obj.cls.lookup(name)
             if d is None:
+                if obj.origin == "contract" and name in _self_stores(obj.cls):
+                    # a pre-state written out by the contract (not produced by the real __init__) that lacks an attribute the
+                    # class does assign somewhere: the contract does not say what it holds -- undecided, not a raise of the code
+                    raise Unsupported(f"the pre-state built by the contract has no attribute '{name}' of {obj.cls.name} "
+                                      f"(attribute added to the class? the contract has to state it)")
                 raise RaisedInCode("AttributeError")
             if isinstance(d, PropertyVal):
                 return self.call_function(d.getter, [obj], {})
@@ -1057,6 +1086,10 @@ class Interp:
         if isinstance(obj, (int, float)) and name in ("real", "imag", "is_integer"):
             return getattr(obj, name)
         if isinstance(obj, Ext):
+            if obj.origin in _DTYPE_KIND and name in ("kind", "name", "itemsize"):
+                # the dtype of a modelled array (real tensors stand for float64 arrays, int tensors for int64 ones)
+                k = _DTYPE_KIND[obj.origin]
+                return {"kind": k, "name": obj.origin.split(".")[-1], "itemsize": 1 if k == "b" else 8}[name]
             key = f"{obj.origin}.{name}"
             if key in self.models:
                 return self.models[key]
